@@ -100,16 +100,14 @@ class SQuad(EditableModule):
             # the integrated dimension is removed, so a negative index would
             # refer to another dimension afterwards
             dim = dim + y.ndim
-        swapaxes = dim != y.ndim - 1
-        if swapaxes:
-            y = y.transpose(dim, -1)
+        # move (not swap) the integrated dimension to the end so that the
+        # other dimensions keep their order
+        y = y.movedim(dim, -1)
         if y.shape[-1] != self.nx:
             raise RuntimeError("The length of integrated dimension does not match with x")
         res = self.obj.integrate(y)
         if keepdim:
-            res = res.unsqueeze(-1)
-        if swapaxes:
-            res = res.transpose(dim, -1)
+            res = res.unsqueeze(-1).movedim(-1, dim)
         return res
 
     def getparamnames(self, methodname: str, prefix: str = "") -> List[str]:
